@@ -307,4 +307,5 @@ func runC14(h *H) {
 	}
 	genStrRT(h) // cross-model round trip of the string codec (c14rt.go)
 	genMapOrder(h)
+	genRawEmit(h) // RawMessage / MarshalJSON output re-emitted by the encoder (c14raw.go)
 }
